@@ -32,8 +32,13 @@ def sanitize(name):
 
 
 def load_registry():
-  from pyvc.loader import Repo
+  from pyvc.loader import Repo, ClassInfo, EnumInfo
   from pyvc.contracts import Registry
+  from pyvc import values as _vv
+  # deterministic class ids / fresh names in every process (formulas are then identical run to run)
+  ClassInfo._uid[0] = 0
+  EnumInfo._uid[0] = 0
+  _vv._fresh[0] = 0
   repo = Repo()
   reg = Registry(repo)
   import contracts
